@@ -187,3 +187,26 @@ Example C18_sam_stop_on_error :
     = ([Rec (Sam.Hdr (bs "@h")); ErrItem; Rec (Sam.Hdr (bs "@k"))], Done)
   /\ run_until (sam_file false C18_no_floats [] TEOF) 1 = ([ErrItem], Done).
 Proof. vm_compute. repeat split. Qed.
+
+(* ---- tie to the Go source by translation (gen/SrcGen.v, regenerated on every run) ---- *)
+From Bio.gen Require SrcGen.
+From Bio.Proofs Require SrcGenProofs.
+
+(* In the Go source of every iterator, each call of the consumer's callback is either
+   guarded (`if !yield(x) { return }`) or directly followed by return/break: the
+   assumption under which Model/Iterators.v composes the adapters. The list is read off
+   the source on every run. *)
+Theorem C18_source_yields_guarded :
+  forallb (fun p => forallb (fun k => (k <? 2)%N) (snd p)) SrcGen.iter_yields = true.
+Proof. exact SrcGenProofs.iter_yields_guarded. Qed.
+Print Assumptions C18_source_yields_guarded.
+
+Theorem C18_source_iterators_are_the_modelled_ones :
+  map fst SrcGen.iter_yields =
+  [ "fasta.reader.iter#0"; "fasta.File#0"; "fasta.Reader#0";
+    "fastq.reader.iter#0"; "fastq.File#0"; "fastq.Reader#0";
+    "sam.ReaderHeader#0"; "sam.Reader#0"; "sam.File#0"; "sam.FileHeader#0";
+    "bed.Reader#0"; "bed.File#0"; "newick.Reader#0"; "newick.File#0";
+    "newick.Node.traverse#0"; "trie.Trie.ForEach#0"; "sequtil.CanonicalSubsequences#0" ]%string.
+Proof. exact SrcGenProofs.iter_yields_names. Qed.
+Print Assumptions C18_source_iterators_are_the_modelled_ones.
